@@ -1,5 +1,8 @@
 import Got.Model.Sample
 import Got.Lemmas.Sample
+import Got.Lemmas.HeapAstAll
+import Got.Lemmas.IfaceAst
+import Got.Lemmas.SampleFullAst
 /-
 C20 — randx.WeightedSampling returns distinct valid indices, weighted correctly.
 (only the property theorems + non-vacuity examples live here)
@@ -130,3 +133,195 @@ example : IsHeap (fun a b : Int => decide (a < b)) #[1, 3, 2, 3] := by
 example : weightedSampling (κ := Int) (fun a b => decide (a < b)) (fun a b => decide (a > b)) 2 [0, 0] = .ok [0, 1] := by decide
 example : weightedSampling rankLess rankGt 2 [some 3, some 1, some 2] = .ok [2, 0] := by decide
 example : weightedSampling rankLess rankGt 1 [some 1, none, some 5] = .ok [2] := by decide
+
+/-! ## the translated source of container/heap
+
+`Got/Generated/AstContainerHeap.lean` holds the MiniGoHeap terms (deep embedding `Got/Model/MiniGoHeap.lean`) that
+tools/srcfacts/minigo_heap.go regenerates on EVERY run from `$GOROOT/src/container/heap/heap.go` of the toolchain that
+builds the harness (up, down, Init, Push, Pop, Remove, Fix), so the theorems below are re-checked against the library
+source actually linked.  `F.run (heapWorld less) prog fuel args x a` interprets the generated term `F` (calls resolved in the
+generated program `prog`) over the slice-backed `heap.Interface` on `a : Array α` (Len = size, Less(i,j) = `less a[i] a[j]`,
+Swap, Push = append, Pop = remove last; an index out of range PANICS): `some (.done ints value a')` = returned within `fuel`,
+`some .panic` = panicked.  "refines_model": for every fuel above some bound the interpretation is exactly the `GoHeap`
+model function, so every heap theorem above is a theorem about the translated library source.  Index / size hypotheses
+`< 2^62` hold for any slice.  `pushAst` / `popAst` / `initAst` are `h_Push.run` / `h_Pop.run` / `h_Init.run` with the outcome
+unpacked (Got/Model/HeapAstWorld.lean); `weightedSamplingAst` is the WeightedSampling loop (hand-transcribed glue,
+Got/Model/SampleAst.lean) over these interpreted heap operations — what `drv_sample ast` prints for every case. -/
+section TranslatedSource
+open Got.Model.MiniGoHeap Got.Model.HeapAst Got.Model.SampleAst Got.Generated.AstContainerHeap
+open Got.Lemmas.HeapAst (run_of_Runs)
+
+/-- The translator accepted all seven functions of container/heap (otherwise a body is empty and its note names the
+    construct, or says that the GOROOT file is missing). -/
+theorem C20_translation_in_fragment : notes = ["ok", "ok", "ok", "ok", "ok", "ok", "ok"] := by decide
+
+/-- **Translator tie, heap.up** -/
+theorem C20_translated_source_heap_up_refines_model {α : Type} (less : α → α → Bool) (a : Array α) (j : Nat)
+    (hj : j < a.size) (hsz : a.size < 2 ^ 62) :
+    ∃ f0, ∀ fuel, f0 ≤ fuel →
+      h_up.run (heapWorld less) prog fuel [(j : Int)] none a = some (.done [] none (GoHeap.up less a j)) := by
+  have e : List.map Got.Model.MiniGoSort.wrap [(j : Int)] = [(j : Int)] := by
+    simp (disch := omega) only [List.map, Got.Lemmas.SortAst.wrap_eq]
+  rcases Got.Lemmas.HeapAst.up_runs prog less a j hj hsz with h | ⟨_, e', h⟩
+  · obtain ⟨f0, hr⟩ := run_of_Runs (fn := h_up) (args := [(j : Int)]) (x := none) rfl rfl (by rw [e]; exact h)
+    exact ⟨f0, fun f hf => by rw [hr f hf]; rfl⟩
+  · obtain ⟨f0, hr⟩ := run_of_Runs (fn := h_up) (args := [(j : Int)]) (x := none) rfl rfl (by rw [e]; exact h)
+    exact ⟨f0, fun f hf => by rw [hr f hf]; rfl⟩
+
+/-- **Translator tie, heap.down** (result `i > i0` as 1/0, incl. the `j1 < 0` overflow guard, never taken below 2^62) -/
+theorem C20_translated_source_heap_down_refines_model {α : Type} (less : α → α → Bool) (a : Array α) (i0 n : Nat)
+    (hn : n ≤ a.size) (hsz : a.size < 2 ^ 62) (hi : i0 < 2 ^ 62) :
+    ∃ f0, ∀ fuel, f0 ≤ fuel →
+      h_down.run (heapWorld less) prog fuel [(i0 : Int), (n : Int)] none a =
+        some (.done [if (GoHeap.down less a i0 n).2 then 1 else 0] none (GoHeap.down less a i0 n).1) := by
+  have e : List.map Got.Model.MiniGoSort.wrap [(i0 : Int), (n : Int)] = [(i0 : Int), (n : Int)] := by
+    simp (disch := omega) only [List.map, Got.Lemmas.SortAst.wrap_eq]
+  rcases Got.Lemmas.HeapAst.down_runs prog less a i0 n hn hsz hi with h | ⟨h0, _⟩
+  · obtain ⟨f0, hr⟩ := run_of_Runs (fn := h_down) (args := [(i0 : Int), (n : Int)]) (x := none) rfl rfl (by rw [e]; exact h)
+    exact ⟨f0, fun f hf => by rw [hr f hf]; rfl⟩
+  · cases h0
+
+/-- **Translator tie, heap.Init** -/
+theorem C20_translated_source_heap_Init_refines_model {α : Type} (less : α → α → Bool) (a : Array α) (hsz : a.size < 2 ^ 62) :
+    ∃ f0, ∀ fuel, f0 ≤ fuel → initAst fuel less a = some (some (GoHeap.init less a)) :=
+  Got.Lemmas.HeapAst.initAst_refines less a hsz
+
+/-- **Translator tie, heap.Push** (`h.Push(x); up(h, h.Len()-1)`) -/
+theorem C20_translated_source_heap_Push_refines_model {α : Type} (less : α → α → Bool) (a : Array α) (x : α)
+    (hsz : a.size + 1 < 2 ^ 62) :
+    ∃ f0, ∀ fuel, f0 ≤ fuel → pushAst fuel less a x = some (some (GoHeap.push less a x)) :=
+  Got.Lemmas.HeapAst.pushAst_refines less a x hsz
+
+/-- **Translator tie, heap.Pop** (`some none` = the panic of the empty heap, as `GoHeap.pop = none`) -/
+theorem C20_translated_source_heap_Pop_refines_model {α : Type} (less : α → α → Bool) (a : Array α) (hsz : a.size < 2 ^ 62) :
+    ∃ f0, ∀ fuel, f0 ≤ fuel → popAst fuel less a = some (GoHeap.pop less a) :=
+  Got.Lemmas.HeapAst.popAst_refines less a hsz
+
+/-- **Translator tie, heap.Fix** -/
+theorem C20_translated_source_heap_Fix_refines_model {α : Type} (less : α → α → Bool) (a : Array α) (i : Nat)
+    (hi : i < a.size) (hsz : a.size < 2 ^ 62) :
+    ∃ f0, ∀ fuel, f0 ≤ fuel →
+      h_Fix.run (heapWorld less) prog fuel [(i : Int)] none a = some (.done [] none (GoHeap.fix less a i)) := by
+  have e : List.map Got.Model.MiniGoSort.wrap [(i : Int)] = [(i : Int)] := by
+    simp (disch := omega) only [List.map, Got.Lemmas.SortAst.wrap_eq]
+  obtain ⟨e', h⟩ := Got.Lemmas.HeapAst.fix_runs prog Got.Lemmas.HeapAst.prog_down Got.Lemmas.HeapAst.prog_up less a i hi hsz
+  obtain ⟨f0, hr⟩ := run_of_Runs (fn := h_Fix) (args := [(i : Int)]) (x := none) rfl rfl (by rw [e]; exact h)
+  exact ⟨f0, fun f hf => by rw [hr f hf]; rfl⟩
+
+/-- **Translator tie, heap.Remove** (any `i`; an index outside the heap panics, as `GoHeap.remove = none`) -/
+theorem C20_translated_source_heap_Remove_refines_model {α : Type} (less : α → α → Bool) (a : Array α) (i : Nat)
+    (hi : i < 2 ^ 62) (hsz : a.size < 2 ^ 62) :
+    ∃ f0, ∀ fuel, f0 ≤ fuel →
+      h_Remove.run (heapWorld less) prog fuel [(i : Int)] none a =
+        some (match GoHeap.remove less a i with | some (x, b) => .done [] (some x) b | none => .panic) := by
+  have e : List.map Got.Model.MiniGoSort.wrap [(i : Int)] = [(i : Int)] := by
+    simp (disch := omega) only [List.map, Got.Lemmas.SortAst.wrap_eq]
+  have h := Got.Lemmas.HeapAst.remove_runs prog Got.Lemmas.HeapAst.prog_down Got.Lemmas.HeapAst.prog_up less a i hi hsz
+  cases hp : GoHeap.remove less a i with
+  | none =>
+    rw [hp] at h
+    obtain ⟨f0, hr⟩ := run_of_Runs (fn := h_Remove) (args := [(i : Int)]) (x := none) rfl rfl (by rw [e]; exact h)
+    exact ⟨f0, fun f hf => by rw [hr f hf]⟩
+  | some p =>
+    obtain ⟨x, b⟩ := p
+    rw [hp] at h
+    obtain ⟨f0, hr⟩ := run_of_Runs (fn := h_Remove) (args := [(i : Int)]) (x := none) rfl rfl (by rw [e]; exact h)
+    exact ⟨f0, fun f hf => by rw [hr f hf]⟩
+
+/-- headline property on the translated source: heap.Pop AS TRANSLATED, on a non-empty heap under a strict weak order,
+    returns a minimal element, removes exactly it, and leaves a heap -/
+theorem C20_translated_source_heap_Pop_min {α : Type} (less : α → α → Bool) (tp : TotalPreorder less) (a : Array α)
+    (hh : IsHeap less a) (hne : 0 < a.size) (hsz : a.size < 2 ^ 62) :
+    ∃ f0, ∀ fuel, f0 ≤ fuel → ∃ x b, popAst fuel less a = some (some (x, b)) ∧ IsHeap less b ∧
+      (∀ y ∈ a.toList, less y x = false) ∧ (x :: b.toList).Perm a.toList := by
+  obtain ⟨f0, h⟩ := C20_translated_source_heap_Pop_refines_model less a hsz
+  obtain ⟨x, b, hp, h1, h2, h3⟩ := C20_heap_pop less tp a hh hne
+  exact ⟨f0, fun fuel hf => ⟨x, b, by rw [h fuel hf, hp], h1, h2, h3⟩⟩
+
+/-- headline property on the translated source: heap.Push AS TRANSLATED keeps the heap invariant and only adds `x` -/
+theorem C20_translated_source_heap_Push_heap {α : Type} (less : α → α → Bool) (tp : TotalPreorder less) (a : Array α) (x : α)
+    (hh : IsHeap less a) (hsz : a.size + 1 < 2 ^ 62) :
+    ∃ f0, ∀ fuel, f0 ≤ fuel → ∃ b, pushAst fuel less a x = some (some b) ∧ IsHeap less b ∧ b.toList.Perm (x :: a.toList) := by
+  obtain ⟨f0, h⟩ := C20_translated_source_heap_Push_refines_model less a x hsz
+  exact ⟨f0, fun fuel hf => ⟨_, h fuel hf, (C20_heap_push less tp a x hh).1, (C20_heap_push less tp a x hh).2⟩⟩
+
+/-- WeightedSampling over the INTERPRETED container/heap terms is the model `weightedSampling` (the loop glue is the
+    hand-written transcription; Push and Pop are the generated terms) -/
+theorem C20_translated_source_sampling_refines_model {κ : Type} (less gt : κ → κ → Bool) (sampleNum : Int) (keys : List κ)
+    (hn : keys.length + 2 < 2 ^ 62) :
+    ∃ f0, ∀ fuel, f0 ≤ fuel →
+      weightedSamplingAst fuel less gt sampleNum keys = some (weightedSampling less gt sampleNum keys) :=
+  Got.Lemmas.SampleAst.weightedSamplingAst_refines (Got.Lemmas.HeapAst.pushSpec _) (Got.Lemmas.HeapAst.popSpec _)
+    less gt sampleNum keys hn
+
+/-- C20 validity for the loop over the translated heap source: `m` pairwise distinct valid indices, no panic -/
+theorem C20_translated_source_valid {κ : Type} (less gt : κ → κ → Bool) (m : Nat) (keys : List κ) (h1 : 1 ≤ m)
+    (h2 : m ≤ keys.length) (hn : keys.length + 2 < 2 ^ 62) :
+    ∃ f0, ∀ fuel, f0 ≤ fuel → ∃ r, weightedSamplingAst fuel less gt (m : Int) keys = some (.ok r) ∧ r.length = m ∧ r.Nodup ∧
+      (∀ x ∈ r, x < keys.length) := by
+  obtain ⟨f0, h⟩ := C20_translated_source_sampling_refines_model less gt (m : Int) keys hn
+  obtain ⟨r, hr, p1, p2, p3, _⟩ := C20_valid less gt m keys h1 h2
+  exact ⟨f0, fun fuel hf => ⟨r, by rw [h fuel hf, hr], p1, p2, p3⟩⟩
+
+/-- **Translator tie, the heap.Interface methods of randx.sampleHeap**: the world built from the descriptions of
+    `(*sampleHeap).Len/Less/Swap/Push/Pop` regenerated from /repo/randx/sample.go on every run
+    (Got/Generated/AstRandxSampleHeap.lean, semantics Got/Model/MiniGoIface.lean: bounds-checked indexing, parallel
+    assignment, `append`, reslice) IS the slice-backed world `heapWorld (itemLess less)` — Less compares the `ki` fields
+    in this argument order, Swap exchanges the two elements, Push appends, Pop removes and returns the last element —
+    and `h.Get(0)` is `h[0]?`. -/
+theorem C20_translated_source_sampleHeap_world {κ : Type} (less : κ → κ → Bool) :
+    sampleWorld less = heapWorld (itemLess less) ∧
+    ∀ h : Array (Item κ), Got.Model.MiniGoIface.getOf Got.Generated.AstRandxSampleHeap.sampleHeap h 0 = h[0]? :=
+  ⟨Got.Lemmas.IfaceAst.sampleWorld_eq less, Got.Lemmas.IfaceAst.get0_eq⟩
+
+/-- what `drv_sample ast` runs — container/heap from GOROOT interpreted over the interface methods from /repo — is the model -/
+theorem C20_translated_source_sampling_gen_refines_model {κ : Type} (less gt : κ → κ → Bool) (sampleNum : Int) (keys : List κ)
+    (hn : keys.length + 2 < 2 ^ 62) :
+    ∃ f0, ∀ fuel, f0 ≤ fuel →
+      weightedSamplingGen fuel less gt sampleNum keys = some (weightedSampling less gt sampleNum keys) := by
+  obtain ⟨f0, h⟩ := C20_translated_source_sampling_refines_model less gt sampleNum keys hn
+  exact ⟨f0, fun fuel hf => by rw [Got.Lemmas.IfaceAst.weightedSamplingGen_eq, h fuel hf]⟩
+
+/-- The translator accepted the body of WeightedSampling (integer control flow as written; the float key computation,
+    the heap calls and the result slice as the abstract statements of Got/Model/MiniGoSampleLoop.lean). -/
+theorem C20_sampling_translation_in_fragment : Got.Generated.AstRandxSampling.weightedSamplingNote = "ok" := by decide
+
+/-- **Translator tie, the whole function**: `weightedSamplingFull` runs the body of WeightedSampling as re-described from
+    /repo/randx/sample.go on every run (argument check, `make`, the loop with `h.Len() < sampleNum`, `else if ki > h.Get(0).ki`,
+    `h.Len() > sampleNum`, the read-out loop), its heap calls being container/heap's Push/Pop as translated from GOROOT, over
+    the heap.Interface world built from the translated methods of sampleHeap.  For every Go `int` sampleNum and every key list
+    (the float keys `log w − log(−log u)` are the inputs, in index order) it returns — for every sufficiently large fuel —
+    exactly the model's result: the index slice or the same panic class.  Nothing of the function is hand-transcribed any
+    more except "the three float lines compute the key of index i". -/
+theorem C20_translated_source_weightedSampling_refines_model {κ : Type} (less gt : κ → κ → Bool) (sampleNum : Int) (keys : List κ)
+    (hn : keys.length + 2 < 2 ^ 62) (hm : -9223372036854775808 ≤ sampleNum ∧ sampleNum < 9223372036854775808) :
+    ∃ f0, ∀ fuel, f0 ≤ fuel →
+      weightedSamplingFull fuel less gt sampleNum keys = some (weightedSampling less gt sampleNum keys) :=
+  Got.Lemmas.SampleFullAst.weightedSamplingFull_refines less gt sampleNum keys hn hm
+
+/-- the driver (`drv_sample ast`) keeps the keys in an array for constant-time lookup; it computes the same function -/
+theorem C20_translated_source_driver_run {κ : Type} (fuel : Nat) (less gt : κ → κ → Bool) (sampleNum : Int) (keys : List κ) :
+    weightedSamplingFullA fuel less gt sampleNum keys.toArray = weightedSamplingFull fuel less gt sampleNum keys :=
+  weightedSamplingFullA_eq fuel less gt sampleNum keys
+
+/-- C20 TOP-m for the translated source: with a strict total order on pairwise distinct keys, the function AS TRANSLATED
+    returns m distinct indices whose keys are all greater than every other key. -/
+theorem C20_translated_source_top_m {κ : Type} (less gt : κ → κ → Bool) (st : StrictTotal less) (hgt : ∀ a b, gt a b = less b a)
+    (m : Nat) (keys : List κ) (hnd : keys.Nodup) (h1 : 1 ≤ m) (h2 : m ≤ keys.length) (hn : keys.length + 2 < 2 ^ 62) :
+    ∃ f0, ∀ fuel, f0 ≤ fuel → ∃ r, weightedSamplingFull fuel less gt (m : Int) keys = some (.ok r) ∧ r.length = m ∧ r.Nodup ∧
+      ∀ j, j ∈ r → ∀ j', j' < keys.length → j' ∉ r →
+        ∀ kj kj', keys[j]? = some kj → keys[j']? = some kj' → less kj' kj = true := by
+  obtain ⟨f0, h⟩ := C20_translated_source_weightedSampling_refines_model less gt (m : Int) keys hn (by omega)
+  obtain ⟨r, hr, p1, p2, p3⟩ := C20_top_m less gt st hgt m keys hnd h1 h2
+  exact ⟨f0, fun fuel hf => ⟨r, by rw [h fuel hf, hr], p1, p2, p3⟩⟩
+
+/-- non-vacuity of the hypotheses, instantiated: two keys, m = 1 -/
+example : ∃ fuel, weightedSamplingFull fuel rankLess rankGt 1 [some 5, some 9] = some (weightedSampling rankLess rankGt 1 [some 5, some 9]) := by
+  obtain ⟨f0, h⟩ := C20_translated_source_weightedSampling_refines_model rankLess rankGt 1 [some 5, some 9] (by decide) (by decide)
+  exact ⟨f0, h f0 (Nat.le_refl _)⟩
+
+example : popAst 50 (fun (x y : Nat) => decide (x < y)) #[0, 1, 5, 7, 3] = some (some (0, #[1, 3, 5, 7])) := by decide
+example : pushAst 50 (fun (x y : Nat) => decide (x < y)) #[1, 3, 5, 7] 0 = some (some #[0, 1, 5, 7, 3]) := by decide
+example : popAst 50 (fun (x y : Nat) => decide (x < y)) #[] = some none := by decide
+
+end TranslatedSource
